@@ -585,7 +585,12 @@ impl<W: Write> NcRunner<W> {
                 if w.emitted.len() > b0 && !w.dead {
                     let k = w.emitted.len();
                     let b1 = w.emitted.len();
-                    self.step_inner(w, &json!({"a":"sdeliver","d":k}));
+                    // "from": the holder of the token shows up at another address (the reply still reaches the same client object)
+                    if st.get("from").is_some() {
+                        self.step_inner(w, &json!({"a":"sdeliver","d":k,"from":getu(st,"from")}));
+                    } else {
+                        self.step_inner(w, &json!({"a":"sdeliver","d":k}));
+                    }
                     if w.emitted.len() > b1 && !w.dead {
                         let r = w.emitted.len();
                         self.step_inner(w, &json!({"a":"cdeliver","c":c,"d":r}));
